@@ -13,6 +13,9 @@ search : oracle independent of the model: direct boolean selection on the full
          observable`, fresh twin object, global restore, `set_window(window())`,
          objects nested on the library's own arrays, power-of-two rescaled twins,
          shuffled anomalies, selected phases / months incl. wrapping and error cases
+round 3: the cache counter after every step (`cs`), `int(T / time_cycle)` against the source
+         expression evaluated by CPython (`ry`), objects loaded with Data.Load /
+         ClimateData.Load through an in-memory Dataset stand-in (`runreg`), huge time stamps
 """
 import contextlib
 import io
@@ -122,7 +125,86 @@ def quiet():
 
 
 def is_climate(case):
-    return case["cls"] in ("ClimateData", "SmallClimate")
+    return case["cls"] in ("ClimateData", "SmallClimate", "LoadClimate")
+
+
+def is_load(case):
+    return case["cls"] in ("LoadClimate", "LoadData")
+
+
+class FakeVar:
+    """stand-in for a NetCDF variable: `var[:]` is the array, `.long_name`, `len(var)`"""
+    def __init__(self, a, long_name="a long name"):
+        self._a, self.long_name = np.asarray(a), long_name
+
+    def __getitem__(self, key):
+        return self._a[key]
+
+    def __len__(self):
+        return len(self._a)
+
+
+class FakeDataset:
+    """in-memory stand-in for `netCDF4.Dataset` / `h5netcdf.legacyapi.Dataset` (no HDF5 backend
+    is installed here): the *real* `Data.Load` / `ClimateData.Load` / `_load_data` /
+    `_get_netcdf_data` / `GeoGrid.RegularGrid` code runs on it"""
+    files = {}
+
+    def __init__(self, file_name, mode="r"):
+        self.variables = FakeDataset.files[file_name]
+
+    def ncattrs(self):
+        return []
+
+    def close(self):
+        pass
+
+
+def load_obj(case, window):
+    """`Data.Load` / `ClimateData.Load` of a regular ("NetCDF": 3-D or 4-D variable) or an
+    irregular ("iNetCDF": 2-D or 3-D variable) file"""
+    import pyunicorn.core.data as data_mod
+    from pyunicorn.core import Data
+    from pyunicorn.climate import ClimateData
+    ld = case["load"]
+    T = len(case["time"])
+    obs = np.array(case["obs"], dtype="float64")
+    if ld["ftype"] == "NetCDF":
+        arr = obs.reshape(T, len(ld["latg"]), len(ld["long"]))
+    else:
+        arr = obs
+    level = ld.get("level")
+    if ld["nlev"]:
+        # a vertical axis: the requested (default: the first) level holds the data
+        shp = list(arr.shape)
+        big = np.full([shp[0], ld["nlev"]] + shp[1:], 12345.0)
+        big[:, 0 if level is None else level] = arr
+        arr = big
+    names = ld["names"]
+    variables = {"obsvar": FakeVar(arr), names["time"]: FakeVar(np.array(case["time"]))}
+    if ld["ftype"] == "NetCDF":
+        variables[names["lat"]] = FakeVar(np.array(ld["latg"]))
+        variables[names["lon"]] = FakeVar(np.array(ld["long"]))
+    else:
+        variables["grid_center_lat"] = FakeVar(np.array(case["lat"]))
+        variables["grid_center_lon"] = FakeVar(np.array(case["lon"]))
+    FakeDataset.files["mem.nc"] = variables
+    old = getattr(data_mod, "Dataset", None)
+    data_mod.Dataset = FakeDataset
+    try:
+        kw = dict(file_name="mem.nc", observable_name="obsvar", file_type=ld["ftype"],
+                  window=conv_window(window, case.get("btype", "float")), silence_level=2,
+                  vertical_level=level)
+        if names != {"lat": "lat", "lon": "lon", "time": "time"}:
+            kw["dimension_names"] = names
+        if case["cls"] == "LoadClimate":
+            return ClimateData.Load(time_cycle=case["c"], **kw)
+        return Data.Load(**kw)
+    finally:
+        if old is None:
+            del data_mod.Dataset
+        else:
+            data_mod.Dataset = old
 
 
 def conv_window(w, btype):
@@ -165,6 +247,8 @@ def make_obj(case, window="init", base=None, plain=False, scale=None):
     if case["cls"].startswith("Small") and not plain and base is None:
         assert window is None
         return ClimateData.SmallTestData() if case["cls"] == "SmallClimate" else Data.SmallTestData()
+    if is_load(case) and not plain and base is None and scale is None:
+        return load_obj(case, window)
     b = base or case
     gdt = "float64" if plain else case.get("gdtype", "float64")
     time = np.array(b["time"], dtype=float)
@@ -225,6 +309,9 @@ def do_op(obj, tok, case):
             if tok == "X":
                 obj.cache_clear()
                 return "ok"
+            if tok == "cs":
+                # the memoisation key of the derived series (the counter `_mut_window`)
+                return ",".join(str(int(x)) for x in obj.__cache_state__())
             if tok == "o":
                 return enc_mat(obj.observable())
             if tok == "g":
@@ -257,6 +344,12 @@ def do_op(obj, tok, case):
 
 
 def request_of(case, ops=None):
+    if is_load(case) and case["load"]["ftype"] == "NetCDF":
+        # regular file: the model computes the node sequences from the two grid axes itself
+        return " ".join(
+            ["runreg", str(case["c"]), str(int(case["flag"])), case["init"],
+             enc_vec(case["time"]), enc_vec(case["load"]["latg"]), enc_vec(case["load"]["long"]),
+             ";".join(enc_vec(r) for r in case["obs"])] + (case["ops"] if ops is None else ops))
     return " ".join(
         ["run", str(case["c"]), str(int(case["flag"])), case["init"],
          enc_vec(case["time"]), enc_vec(case["lat"]), enc_vec(case["lon"]),
@@ -719,6 +812,12 @@ def gen_case(ctx, rng, exact, quick):
             c = rng.randrange(1, T + 1)
     tstep = rng.choice([0.25, 0.5, 1.0, 1.5])
     t0 = rng.choice([0.0, 0.0, -3.0, 10.5, 1948.0])
+    if rng.random() < 0.12:
+        # huge (still float32-exact) time stamps, e.g. hours since a distant epoch: neighbouring
+        # bounds differ by far less than 1e-5 relative -- the coinciding-bounds test must be exact
+        t0, tstep = rng.choice([(2.0 ** 20, tstep), (-2.0 ** 20, tstep), (2.0 ** 22, 1.0),
+                                (2.0 ** 23, 2.0)])
+        ctx.count("time-axis:huge-stamps")
     time, t = [], t0
     for _ in range(T):
         time.append(t)
@@ -816,6 +915,8 @@ def gen_case(ctx, rng, exact, quick):
             ctx.count("op:shuffled_anomaly")
         if climate and rng.random() < 0.1:
             qs.append("X")
+        if climate and rng.random() < 0.3:
+            qs.append("cs")
         return qs
 
     ops += some_queries()
@@ -858,6 +959,66 @@ def gen_case(ctx, rng, exact, quick):
     return {"cls": cls, "c": c, "flag": flag, "init": init, "time": time, "lat": lat,
             "lon": lon, "obs": obs, "dtype": dtype, "ops": ops, "gdtype": gdtype,
             "layout": layout, "btype": btype, "scale": scale}
+
+
+def gen_load_case(ctx, rng):
+    """a file loaded through `Data.Load` / `ClimateData.Load` (in-memory Dataset stand-in):
+    regular grids (3-D / 4-D variable) and irregular ones (2-D / 3-D), default and custom
+    dimension names, with and without constructor window, then an ordinary history.
+    The loader casts everything to float32: integer data with integer means below 2^24."""
+    cls = "LoadClimate" if rng.random() < 0.8 else "LoadData"
+    T = rng.randrange(1, 13)
+    c = rng.choice([1, 2, 3, 4, 5, 12, 13])
+    if c > T and rng.random() < 0.6:
+        c = rng.randrange(1, T + 1)
+    ftype = rng.choice(["NetCDF", "NetCDF", "iNetCDF"])
+    if ftype == "NetCDF":
+        latg = sorted(rng.sample([-45.0, -22.5, 0.0, 7.5, 22.5, 45.0, 67.5], rng.randrange(1, 4)))
+        long = rng.sample([-90.0, 0.0, 11.25, 45.0, 90.0, 135.0], rng.randrange(1, 4))
+        if rng.random() < 0.5:
+            long.sort()
+        lat = [la for la in latg for _ in long]       # definition: every latitude with all longitudes
+        lon = [lo for _ in latg for lo in long]
+    else:
+        latg = long = None
+        N = rng.randrange(1, 6)
+        lat = gen_axis(rng, N, -90.0, 90.0, 22.5)
+        lon = gen_axis(rng, N, 0.0, 180.0, 45.0)
+    N = len(lat)
+    tstep = rng.choice([0.5, 1.0, 1.5])
+    time = [rng.choice([0.0, 10.5, 2.0 ** 20]) + tstep * k for k in range(T)]
+    time = [time[0] + tstep * k for k in range(T)]
+    L = lcm_upto(-(-T // c))
+    obs = [[float(L * rng.randrange(-20, 21)) for _ in range(N)] for _ in range(T)]
+    nlev = rng.choice([0, 0, 1, 3])
+    level = None if (nlev == 0 or rng.random() < 0.4) else rng.randrange(nlev)
+    names = {"lat": "lat", "lon": "lon", "time": "time"}
+    if rng.random() < 0.3:
+        names = {"lat": "latitude", "lon": "longitude", "time": "t"}
+    climate = cls == "LoadClimate"
+
+    def win():
+        j, i0, i1 = rng.randrange(N), rng.randrange(T), rng.randrange(T)
+        i0, i1 = min(i0, i1), max(i0, i1)
+        ex = [0.0, 0.0, 7.5, 22.5, 45.0]
+        return dict(zip(WKEYS, (time[i0] - rng.choice([0, tstep / 2]), time[i1] + rng.choice([0, tstep / 2]),
+                                lat[j] - rng.choice(ex), lat[j] + rng.choice(ex),
+                                lon[j] - rng.choice(ex), lon[j] + rng.choice(ex))))
+    init = enc_win(win()) if rng.random() < 0.4 else "G"
+    qs = ["o", "g", "w"] + (["pm", "an", "pi", "cs"] if climate else [])
+    ops = list(qs)
+    for _ in range(rng.randrange(1, 4)):
+        r = rng.random()
+        ops.append("G" if r < 0.2 else "Wc" if r < 0.3 else enc_win(win()))
+        ops += [q for q in qs if rng.random() < 0.6]
+    ctx.count(f"class:{cls}")
+    ctx.count(f"load:{ftype}:{'4-D' if nlev and ftype == 'NetCDF' else '3-D' if (nlev or ftype == 'NetCDF') else '2-D'}")
+    ctx.count("load:" + ("custom-dimension-names" if names["lat"] != "lat" else "default-names"))
+    return {"cls": cls, "c": c, "flag": 0, "init": init, "time": time, "lat": lat, "lon": lon,
+            "obs": obs, "dtype": "float32", "ops": ops, "gdtype": "float32", "layout": "C",
+            "btype": rng.choice(["float", "int", "np32", "mixed"]), "scale": None,
+            "load": {"ftype": ftype, "latg": latg, "long": long, "nlev": nlev, "level": level,
+                     "names": names}}
 
 
 def edge_cases():
@@ -914,6 +1075,24 @@ def edge_cases():
                     ops=["im=0", "im=-1,1", "am=11", "im=12", "pi", "W=1/4,181,0,0,0,0", "im=0,11",
                          "am=-12", "W=1/4,90,0,0,0,0", "im=3", "am=3", "pm", "sp=359,-360", "sp=360"]))
     out.append(dict(base, c=7, time=t12, obs=[[float(i)] * 3 for i in range(26)], ops=["im=1", "am=1"]))
+    # round 3: the cache counter along histories with repeated global restores (with and
+    # without a constructor window), and huge time stamps with neighbouring bounds
+    hs3 = [
+        ["cs", "an", "pm", "G", "cs", "an", W, "cs", "an", "pm", "G", "cs", "an", "G", "cs", W, "cs", "an"],
+        ["cs", "an", "W=10,11,0,0,0,0", "cs", "an", "G", "cs", "Wc", "cs", "an", "N", "cs", "an", "G", "cs"],
+    ]
+    for h in hs3:
+        for init in ("G", W):
+            for flag in (0, 1):
+                out.append(dict(base, init=init, flag=flag, ops=list(h)))
+    for t0, st in ((2.0 ** 20, 0.25), (2.0 ** 22, 1.0), (-2.0 ** 20, 0.5), (2.0 ** 23, 2.0)):
+        tt = [t0 + st * k for k in range(7)]
+        e = lambda k: enc_num(t0 + st * k)      # noqa: E731
+        out.append(dict(base, time=tt, ops=[
+            f"W={e(1)},{e(2)},0,0,0,0", "o", "g", "w", "an", f"W={e(3)},{e(3)},0,0,0,0", "o", "g",
+            f"W={enc_num(t0 + st * 1.5)},{e(4)},0,5,0,5", "o", "g", "pm", "Wc", "o",
+            f"W={e(5)},{e(6)},0,0,0,0", "o", "an", "G", "o"], gdtype="float32", btype="np64",
+            scale=(10, 3)))
     return out
 
 
@@ -933,8 +1112,11 @@ def run(ctx):
         "arbitrary eviction",
         "numpy.random.shuffle applies a permutation that depends only on the generator state and the "
         "length (the harness replays it on range(T) and sends the permutation to the model)",
-        "int(T / time_cycle) on floats equals floor(T / time_cycle) for the record lengths used "
-        "(T < 2^53 / time_cycle)",
+        "CPython's int / int true division returns the double nearest to the exact quotient "
+        "(modelled by rn53; that int(T / time_cycle) then equals T // time_cycle for T < 2^53 is the "
+        "theorem rangeYearsF_eq, and the model is compared with the source expression on every run)",
+        "the in-memory stand-in for netCDF4.Dataset used to drive Data.Load / ClimateData.Load "
+        "(variables[name][:], .long_name, close()); NumPy's C-order reshape (n_time, -1)",
     ]
     ctx.assumptions = [
         "coordinates and window bounds are float32-exact (NumPy 2 compares a float32 array with a "
@@ -955,6 +1137,7 @@ def run(ctx):
     cases = [(c, True) for c in edge_cases()]
     cases += [(gen_case(ctx, rng, True, quick), True) for _ in range(n_exact)]
     cases += [(gen_case(ctx, rng, False, quick), False) for _ in range(n_dyadic)]
+    cases += [(gen_load_case(ctx, rng), True) for _ in range(150 if quick else 1500)]
 
     reqs, impl, exacts = [], [], []
     for case, exact in cases:
@@ -987,6 +1170,8 @@ def run(ctx):
             if piece.startswith("raise:"):
                 ctx.count("outcome:" + piece)
 
+    float_division(ctx, rng)
+
     model = common.driver(ctx.pid, reqs)
     bad = [i for i in range(len(reqs))
            if not same(model[i], impl[i], *tol_of(cases[i][0], exacts[i]))]
@@ -1005,6 +1190,58 @@ def run(ctx):
         "\n".join(f"{reqs[i][:300]} :: {first_diff(i)}" for i in bad[:5]))
     ctx.extra["requests_compared"] = len(reqs)
     ctx.extra["operations_compared"] = sum(len(c["ops"]) + 1 for c, _ in cases)
+
+
+def float_division(ctx, rng):
+    """`range_years = int(T / time_cycle)`: the model's IEEE evaluation (`rangeYearsF`, proved
+    equal to `T // c` below 2^53) against the *source expression* of `phase_indices`, compiled
+    from the current tree and evaluated by CPython -- also beyond 2^53, where the two differ"""
+    import ast
+    import os
+    import types
+    path = os.path.join(common.REPO, "src/pyunicorn/climate/climate_data.py")
+    expr = None
+    for n in ast.walk(ast.parse(open(path).read())):
+        if isinstance(n, ast.FunctionDef) and n.name == "phase_indices":
+            for st in ast.walk(n):
+                if isinstance(st, ast.Assign) and ast.unparse(st.targets[0]) == "range_years":
+                    expr = compile(ast.Expression(st.value), path, "eval")
+    if expr is None:
+        ctx.obligation("float division: `range_years = ...` found in phase_indices", "correspondence",
+                       False, "assignment not found")
+        return
+    pairs = [(7, 3), (1, 1), (0, 5), (2 ** 53 - 1, 3), (2 ** 53 + 1, 1), (2 ** 53 - 1, 1),
+             (2 ** 53 + 3, 2), (3 * 2 ** 52 + 1, 3), (2 ** 54 - 1, 1), (2 ** 60 + 12345, 360),
+             (2 ** 53 - 5, 360), (2 ** 53 - 5, 12)]
+    for _ in range(400):
+        c = rng.choice([1, 2, 3, 5, 7, 12, 13, 360, 365, rng.randrange(1, 10 ** 6)])
+        r = rng.random()
+        if r < 0.4:
+            T = rng.randrange(0, 10 ** 6)
+        elif r < 0.7:
+            # just below a multiple of the cycle, close to 2^53: the quotient lies 1/c below an integer
+            T = max(0, (rng.randrange(2 ** 50, 2 ** 53) // c) * c - rng.choice([0, 1, 2]))
+        else:
+            T = rng.randrange(2 ** 52, 2 ** 56)
+        pairs.append((T, c))
+    impl, beyond, differ = [], 0, 0
+    for T, c in pairs:
+        stub = types.SimpleNamespace(time_cycle=c, grid=types.SimpleNamespace(
+            grid_size=lambda T=T: {"time": T, "space": 1}))
+        v = eval(expr, {"int": int, "np": np}, {"self": stub})    # noqa: S307 (the source's expression)
+        impl.append(f"{int(v)} {T // c}")
+        beyond += T >= 2 ** 53
+        differ += int(v) != T // c
+        if T < 2 ** 53 and int(v) != T // c:
+            ctx.fail({"class": "ClimateData", "method": "phase_indices", "kind": "range_years"},
+                     f"int(T / c) = {int(v)} but T // c = {T // c} for T = {T} < 2^53, c = {c}",
+                     {"T": T, "c": c})
+    model = common.driver(ctx.pid, [f"ry {T} {c}" for T, c in pairs])
+    bad = [f"T={T} c={c}: model={m} impl={i}" for (T, c), m, i in zip(pairs, model, impl) if m != i]
+    ctx.obligation(f"correspondence: IEEE model of `int(T / time_cycle)` == the source expression "
+                   f"evaluated by CPython ({len(pairs)} pairs, {beyond} beyond 2^53, "
+                   f"{differ} where it is not T // c)", "correspondence", not bad, "\n".join(bad[:5]))
+    ctx.count("float-division:pairs", len(pairs))
 
 
 class _Probe:
@@ -1049,8 +1286,14 @@ def shrink_failures(ctx, case, exact, nfail):
 
 def replay(ctx, rp):
     case = rp["replay"]
+    if "T" in case and "cls" not in case:
+        T, c = case["T"], case["c"]
+        if int(T / c) != T // c and T < 2 ** 53:
+            ctx.fail({"class": "ClimateData", "method": "phase_indices", "kind": "range_years"},
+                     f"int(T / c) != T // c for T = {T}, c = {c}", dict(case))
+        return
     case = {k: case[k] for k in ("cls", "c", "flag", "init", "time", "lat", "lon", "obs",
-                                 "dtype", "ops", "gdtype", "layout", "btype", "scale") if k in case}
+                                 "dtype", "ops", "gdtype", "layout", "btype", "scale", "load") if k in case}
     if case.get("scale"):
         case["scale"] = tuple(case["scale"])
     run_case(ctx, case, False, oracle=True)
